@@ -44,7 +44,7 @@ ASSUMPTIONS = [
 ]
 SHRINK = ['steps', 'ops']
 KINDS = ['file', 'file', 'file', 'demo:mapping:mapping', 'demo:file:file',
-         'mapping']
+         'mapping', 'hex:file', 'hex:demo:mapping:mapping']
 CLASSES = ['Merge', 'Merge', 'Merge', 'Cell', 'Boom', 'Boom2', 'MergeNA']
 
 
